@@ -309,24 +309,36 @@ proof! {
 // ------------------------------------------------------------------ derived enums: constructor index
 
 macro_rules! ctor_index {
-    ($name:ident, $t:ty, $nvariants:expr) => {
+    ($one:ident, $two:ident, $t:ty, $nvariants:expr) => {
         proof! {
-            fn $name() unwind(6) {
-                // 0 (enum record version) ++ index varint (1 or 2 bytes, symbolic) ++ 0 ++ payload
+            fn $one() unwind(6) {
+                // 0 (enum record version) ++ one-byte index varint (symbolic) ++ 0 ++ payload
+                let mut data: [u8; 5] = sym::bytes();
+                data[0] = 0;
+                data[1] = data[1] & 0x7f;
+                data[2] = 0;
+                sym::assume(data[1] as u32 >= $nvariants);
+                match desert_core::deserialize::<$t>(&data) {
+                    Ok(v) => {
+                        std::mem::forget(v);
+                        assert!(false, "an unknown constructor index was decoded into a value");
+                    }
+                    Err(e) => {
+                        cover!(data[1] == 0x7f);
+                        std::mem::forget(e);
+                    }
+                }
+            }
+        }
+        proof! {
+            fn $two() unwind(6) {
+                // two-byte index varint: every index 128..16383 (and non-minimal forms of smaller ones)
                 let mut data: [u8; 6] = sym::bytes();
                 data[0] = 0;
-                let two = sym::bool_();
-                let idx: u32;
-                if two {
-                    data[1] = data[1] | 0x80;
-                    data[2] = data[2] & 0x7f;
-                    data[3] = 0;
-                    idx = (data[1] & 0x7f) as u32 | ((data[2] as u32) << 7);
-                } else {
-                    data[1] = data[1] & 0x7f;
-                    data[2] = 0;
-                    idx = data[1] as u32;
-                }
+                data[1] = data[1] | 0x80;
+                data[2] = data[2] & 0x7f;
+                data[3] = 0;
+                let idx = (data[1] & 0x7f) as u32 | ((data[2] as u32) << 7);
                 sym::assume(idx >= $nvariants);
                 match desert_core::deserialize::<$t>(&data) {
                     Ok(v) => {
@@ -334,8 +346,7 @@ macro_rules! ctor_index {
                         assert!(false, "an unknown constructor index was decoded into a value");
                     }
                     Err(e) => {
-                        cover!(two);
-                        cover!(!two);
+                        cover!(idx == 16383);
                         std::mem::forget(e);
                     }
                 }
@@ -344,7 +355,9 @@ macro_rules! ctor_index {
     };
 }
 
-//@ props=C05,C13 tier=quick bounds=E3:every-constructor-index>=3-up-to-2-varint-bytes cap=900
-ctor_index!(c13_unknown_index_e3, E3, 3);
-//@ props=C05,C13 tier=thorough bounds=ES(sorted):every-constructor-index>=3-up-to-2-varint-bytes cap=2400
-ctor_index!(c13_unknown_index_es, ES, 3);
+//@ props=C05,C13 tier=quick bounds=E3:every-one-byte-constructor-index>=3 cap=900
+//@ props=C05,C13 tier=quick bounds=E3:every-two-byte-constructor-index>=3 cap=900
+ctor_index!(c13_unknown_index1_e3, c13_unknown_index2_e3, E3, 3);
+//@ props=C05,C13 tier=thorough bounds=ES(sorted):every-one-byte-constructor-index>=3 cap=2400
+//@ props=C05,C13 tier=thorough bounds=ES(sorted):every-two-byte-constructor-index>=3 cap=2400
+ctor_index!(c13_unknown_index1_es, c13_unknown_index2_es, ES, 3);
